@@ -230,3 +230,15 @@ Fixpoint qrun_acc (s : sspec) (ops : list sop) (acc : list res) : option (list r
   | o :: t => match qstep s o with None => None | Some (s', r) => qrun_acc s' t (r :: acc) end
   end.
 Definition sspec_case (ops : list sop) : option (list res) := qrun_acc sspec0 ops [].
+
+(* the states after the operations (for the invariant theorem) *)
+Fixpoint sl_exec (s : sl) (ops : list sop) : option sl :=
+  match ops with
+  | [] => Some s
+  | o :: t => match sl_step s o with SOk s' _ => sl_exec s' t | _ => None end
+  end.
+Fixpoint q_exec (s : sspec) (ops : list sop) : option sspec :=
+  match ops with
+  | [] => Some s
+  | o :: t => match qstep s o with Some (s', _) => q_exec s' t | None => None end
+  end.
